@@ -31,4 +31,37 @@ PROPS = {
             ],
         },
     },
+    "C20": {
+        "target": "c20",
+        "tiers": {
+            "quick": {"count": 4000000, "budget_s": 40, "workers": 16, "recheck": 50},
+            "thorough": {"count": 200000000, "budget_s": 900, "workers": 16, "recheck": 100},
+        },
+        "describe": {
+            "rule": ("one run = one seeded plan: scenario singleton (2..8 threads quick / 2..16 thorough, 1..3 rounds with reset() "
+                     "between rounds while all threads are quiescent, optional start barrier) or managed thread (0..2 observer "
+                     "threads, 1..8 queries each, explicit join or join by destructor, function with/without arguments), plus a "
+                     "schedule: random preemption with probability 1/p at every non-stack load/store and synchronisation call, "
+                     "PCT with 1..3 priority change points, round-robin with random quantum, child-first/parent-first bias at "
+                     "pthread_create. Non-trivial: at least one preemption or one wait for a mutex happened. Distinct: distinct "
+                     "hashes over the executed context-switch sequence (thread, local point index, successor, point kind) and the "
+                     "observations of the run."),
+            "sim_time_unit": "scheduler steps (schedule points executed); no wall-clock time passes inside a run",
+            "state_measure": "distinct (scenario, number of threads, maximal number of threads simultaneously inside instance()) tuples",
+            "distinct_measure": "distinct context-switch sequences (hash over (thread, local point, successor, kind) of every switch)",
+            "components": {
+                "real": ["celma::common::Singleton<T>", "celma::common::ManagedThread", "libstdc++ std::thread, std::mutex, std::atomic",
+                         "ThreadSanitizer (clang 14) inside every run"],
+                "stub": ["OS thread scheduler: replaced by the baton scheduler (sim/sched.cpp) over real pthreads; "
+                         "pthread_create/join/mutex_lock/trylock/unlock, sched_yield and the sleep family are interposed"],
+            },
+            "assumptions": [
+                "only sequentially consistent interleavings of instrumented accesses are executed; weak-memory effects are covered through ThreadSanitizer's happens-before analysis only",
+                "preemption is possible at every load/store of non-stack memory and every synchronisation call of instrumented code (Celma headers + harness), not inside libstdc++.so/libc",
+                "reset() racing with instance() is not generated (outside the property)",
+                "the harness' own probes use relaxed atomics so that they add no happens-before edge; started/finished flags of the managed-thread scenario are seq_cst by design (they are the observation the property speaks about)",
+                "sampling, not enumeration",
+            ],
+        },
+    },
 }
